@@ -1,4 +1,4 @@
 From Coq Require Import Extraction ExtrOcamlBasic.
 From Verif Require Import Wire.Model Wire.Families.
 Extraction Language OCaml.
-Extraction "model.ml" enc_msg dec_msg nlri_from_slice nlri_serialize family_kind fnlri_len mask_last last_mask octets_of.
+Extraction "model.ml" enc_msg dec_msg nlri_from_slice nlri_serialize dec_nlri_list enc_nlri_list family_kind fnlri_len mask_last last_mask octets_of.
